@@ -1,14 +1,115 @@
-//! Operations for C11 (see ops.rs). Fill in: return Some(outcome) for the ops this module owns.
+//! Operations for C11: `Fmt.<Type>` = the type's public formatter applied to a value built from its abstract
+//! projection (+ display options); the result travels as characters (see ops_parse::chars_tok).
+//! `Enum.display` / `Enum.parse` = Display / FromStr of the option enums, addressed by the variant's Rust name.
 use crate::js::{self, big, int};
 use crate::ops::{utc, FS};
+use crate::ops_parse::{chars_tok, p_monthcode, p_timezone, untok};
 use crate::proj::*;
 use serde_json::{json, Value};
+use std::str::FromStr;
 use temporal_rs::options::*;
+use temporal_rs::parsers::Precision;
 use temporal_rs::*;
 
-pub fn exec(op: &str, a: &Value) -> Option<Value> {
-    let _ = a;
-    match op {
-        _ => None,
+fn arg_cal(v: &Value) -> TemporalResult<Calendar> {
+    match v.get("cal").and_then(|c| c.as_str()) { Some(c) => Calendar::from_utf8(c.as_bytes()), None => Ok(iso()) }
+}
+/// {"prec": -1 (auto) | 0..9 digits, "su"?: unit name ("" = none)} -> ToStringRoundingOptions (rounding mode left at its default, trunc)
+fn arg_tsopts(a: &Value) -> ToStringRoundingOptions {
+    let precision = match a.get("prec").and_then(|x| x.as_i64()) {
+        None | Some(-1) => Precision::Auto,
+        Some(-2) => Precision::Minute,
+        Some(n) => Precision::Digit(n as u8),
+    };
+    let smallest_unit = js::opt_s(a, "su").filter(|s| !s.is_empty()).map(arg_unit);
+    ToStringRoundingOptions { precision, smallest_unit, rounding_mode: None }
+}
+fn arg_dc(a: &Value) -> DisplayCalendar { DisplayCalendar::from_str(js::opt_s(a, "cd").unwrap_or("auto")).expect("calendar display") }
+fn arg_do(a: &Value) -> DisplayOffset { DisplayOffset::from_str(js::opt_s(a, "od").unwrap_or("auto")).expect("offset display") }
+fn arg_dtz(a: &Value) -> DisplayTimeZone { DisplayTimeZone::from_str(js::opt_s(a, "zd").unwrap_or("auto")).expect("tz display") }
+fn display(a: &Value) -> bool { js::opt_s(a, "via") == Some("display") }
+
+fn a_date(v: &Value) -> TemporalResult<PlainDate> {
+    PlainDate::try_new(js::i(v, "y") as i32, js::i(v, "m") as u8, js::i(v, "d") as u8, arg_cal(v)?)
+}
+fn a_datetime(v: &Value) -> TemporalResult<PlainDateTime> {
+    PlainDateTime::try_new(js::i(v, "y") as i32, js::i(v, "m") as u8, js::i(v, "d") as u8,
+        js::i(v, "h") as u8, js::i(v, "mi") as u8, js::i(v, "s") as u8,
+        js::i(v, "ms") as u16, js::i(v, "us") as u16, js::i(v, "ns") as u16, arg_cal(v)?)
+}
+fn a_ym(v: &Value) -> TemporalResult<PlainYearMonth> {
+    PlainYearMonth::new_with_overflow(js::i(v, "y") as i32, js::i(v, "m") as u8, v.get("rd").and_then(|x| x.as_u64()).map(|x| x as u8), arg_cal(v)?, ArithmeticOverflow::Reject)
+}
+fn a_md(v: &Value) -> TemporalResult<PlainMonthDay> {
+    PlainMonthDay::new_with_overflow(js::i(v, "m") as u8, js::i(v, "d") as u8, arg_cal(v)?, ArithmeticOverflow::Reject, v.get("ry").and_then(|x| x.as_i64()).map(|x| x as i32))
+}
+fn a_tz(v: &Value) -> TemporalResult<TimeZone> { TimeZone::try_from_identifier_str(&untok(v)) }
+fn a_zdt(v: &Value) -> TemporalResult<ZonedDateTime> { ZonedDateTime::try_new(num(&v["ns"]), arg_cal(v)?, a_tz(&v["tz"])?) }
+
+macro_rules! enum_table {
+    ($name:literal, $ty:ty, [$($var:ident),*], $op:expr, $a:expr) => {{
+        let vars: Vec<(&str, $ty)> = vec![$((stringify!($var), <$ty>::$var)),*];
+        match $op {
+            "Enum.display" => {
+                let want = js::s($a, "variant");
+                let (_, v) = vars.iter().find(|(n, _)| *n == want).unwrap_or_else(|| panic!("variant {} of {}", want, $name));
+                run_inf(|| v.to_string(), |s| chars_tok(s))
+            }
+            "Enum.parse" => {
+                let s = untok(&$a["chars"]);
+                match std::panic::catch_unwind(|| <$ty>::from_str(&s)) {
+                    Err(_) => err("panic"),
+                    // the enums' FromStr error types carry no kind; callers turn them into RangeError
+                    Ok(Err(_)) => err("range"),
+                    Ok(Ok(v)) => ok(json!(format!("{:?}", v))),
+                }
+            }
+            "Enum.variants" => ok(json!(vars.iter().map(|(n, _)| *n).collect::<Vec<_>>())),
+            _ => unreachable!(),
+        }
+    }};
+}
+
+fn enum_op(op: &str, a: &Value) -> Value {
+    match js::s(a, "enum") {
+        "Unit" => enum_table!("Unit", Unit, [Auto, Nanosecond, Microsecond, Millisecond, Second, Minute, Hour, Day, Week, Month, Year], op, a),
+        "RoundingMode" => enum_table!("RoundingMode", RoundingMode, [Ceil, Floor, Expand, Trunc, HalfCeil, HalfFloor, HalfExpand, HalfTrunc, HalfEven], op, a),
+        "ArithmeticOverflow" => enum_table!("ArithmeticOverflow", ArithmeticOverflow, [Constrain, Reject], op, a),
+        "DurationOverflow" => enum_table!("DurationOverflow", DurationOverflow, [Constrain, Balance], op, a),
+        "Disambiguation" => enum_table!("Disambiguation", Disambiguation, [Compatible, Earlier, Later, Reject], op, a),
+        "OffsetDisambiguation" => enum_table!("OffsetDisambiguation", OffsetDisambiguation, [Use, Prefer, Ignore, Reject], op, a),
+        "DisplayCalendar" => enum_table!("DisplayCalendar", DisplayCalendar, [Auto, Always, Never, Critical], op, a),
+        "DisplayOffset" => enum_table!("DisplayOffset", DisplayOffset, [Auto, Never], op, a),
+        "DisplayTimeZone" => enum_table!("DisplayTimeZone", DisplayTimeZone, [Auto, Never, Critical], op, a),
+        e => json!({"kind": "unknown-enum", "enum": e}),
     }
+}
+
+pub fn exec(op: &str, a: &Value) -> Option<Value> {
+    let v = &a["v"];
+    Some(match op {
+        "Fmt.PlainDate" => run(|| { let d = a_date(v)?; Ok(if display(a) { d.to_string() } else { d.to_ixdtf_string(arg_dc(a)) }) }, |s| chars_tok(s)),
+        "Fmt.PlainDateTime" => run(|| { let d = a_datetime(v)?; if display(a) { Ok(d.to_string()) } else { d.to_ixdtf_string(arg_tsopts(a), arg_dc(a)) } }, |s| chars_tok(s)),
+        "Fmt.PlainTime" => run(|| arg_time(v)?.to_ixdtf_string(arg_tsopts(a)), |s| chars_tok(s)),
+        "Fmt.PlainYearMonth" => run(|| { let d = a_ym(v)?; Ok(if display(a) { d.to_string() } else { d.to_ixdtf_string(arg_dc(a)) }) }, |s| chars_tok(s)),
+        "Fmt.PlainMonthDay" => run(|| { let d = a_md(v)?; Ok(if display(a) { d.to_string() } else { d.to_ixdtf_string(arg_dc(a)) }) }, |s| chars_tok(s)),
+        "Fmt.Instant" => run(|| {
+            let i = arg_instant(v)?;
+            let tz = match a.get("tz") { Some(t) if !t.is_null() => Some(a_tz(t)?), _ => None };
+            FS.with(|p| i.to_ixdtf_string_with_provider(tz.as_ref(), arg_tsopts(a), p))
+        }, |s| chars_tok(s)),
+        "Fmt.Duration" => run(|| { let d = arg_duration(v)?; if display(a) { Ok(d.to_string()) } else { d.as_temporal_string(arg_tsopts(a)) } }, |s| chars_tok(s)),
+        "Fmt.ZonedDateTime" => run(|| {
+            let z = a_zdt(v)?;
+            FS.with(|p| if display(a) { z.to_string_with_provider(p) } else { z.to_ixdtf_string_with_provider(arg_do(a), arg_dtz(a), arg_dc(a), arg_tsopts(a), p) })
+        }, |s| chars_tok(s)),
+        // the offset a (named or fixed) zone has at an instant, as the public getter reports it (input to the spec for named zones)
+        "ZonedDateTime.offsetNs" => run(|| FS.with(|p| a_zdt(v)?.offset_nanoseconds_with_provider(p)), |n| big(*n as i128)),
+        "Fmt.YearPad" => run(|| PlainYearMonth::new_with_overflow(js::i(a, "y") as i32, js::i(a, "m") as u8, None, iso(), ArithmeticOverflow::Reject), |ym| chars_tok(&ym.padded_iso_year_string())),
+        "Fmt.TimeZone" => run(|| a_tz(&a["tz"])?.identifier(), |s| chars_tok(s)),
+        "Fmt.MonthCode" => run(|| MonthCode::from_str(&untok(&a["chars"])), |m| chars_tok(m.as_str())),
+        "Fmt.Calendar" => run(|| Calendar::from_utf8(untok(&a["chars"]).as_bytes()), |c| chars_tok(c.identifier())),
+        "Enum.display" | "Enum.parse" | "Enum.variants" => enum_op(op, a),
+        _ => return None,
+    })
 }
